@@ -44,6 +44,8 @@ DS_LAYOUTS = {
     "6x3/b4": ([6, 3], 4),       # blocks (4,3) and (2,3)
 }
 TF_LAYOUTS = {
+    # two blocked axes separated by a small one, two blocks on each
+    "6x2x6/b3": ([6, 2, 6], 3),
     "4x2/b2": ([4, 2], 2),
     "6x2/b2": ([6, 2], 2),
     "4x4/b2": ([4, 4], 2),
@@ -73,7 +75,8 @@ def plan(tier, seed):
   tasks = []
   ds_l = ["4x3/b2", "5x3/b2", "3x3/b4", "6x3/b4"] if tier == "quick" \
       else list(DS_LAYOUTS)
-  tf_l = ["4x2/b2", "6x2/b2"] if tier == "quick" else list(TF_LAYOUTS)
+  tf_l = ["4x2/b2", "6x2/b2", "6x2x6/b3"] if tier == "quick" else \
+      list(TF_LAYOUTS)
   for name in ds_l:
     shape, bs = DS_LAYOUTS[name]
     nb = len(block_slices(shape, bs))
